@@ -270,3 +270,35 @@ def probe_single_sample_segment():
         return (f"a segment whose bounding box is one sample is treated as a broadcastable constant and dropped: "
                 f"4x4 aperture split into [1 sample | 15 samples] differs from the monolithic field by {d:.2f}")
     return None
+
+
+# --- segments whose images land on different, partially overlapping windows ---------------------
+
+@hyp("C03", "chips", lambda tier: cm.chips_case(tier),
+     "2-5 tilted segments propagated onto small windows (several output fields that overlap partially, bridge "
+     "or are disjoint): intensity must be |coherent sum|^2 on every sample", examples=(500, 2000))
+def chips(case, ctx):
+    with lentil_call("C03.chips", "fit_tilt + propagate_dft"):
+        out = cm.build_chips(case)
+        field = out.field
+        inten = out.intensity
+    rects = cm.chip_rects(out)
+    n_ov = sum(1 for i in range(len(rects)) for j in range(i + 1, len(rects)) if cm.rects_overlap(rects[i], rects[j]))
+    ctx.tag(f"fields:{len(rects)}", "overlapping_fields" if n_ov else "all_disjoint",
+            "bridge_in_order" if cm.bridge_in_order(rects) else None,
+            "partial_and_disjoint" if 0 < n_ov < len(rects) * (len(rects) - 1) // 2 else None)
+    ctx.nontrivial_if(n_ov >= 1)
+    # independent coherent sum: place every output field on a canvas by its offset (floor(n/2) origin)
+    total = np.zeros(field.shape, dtype=complex)
+    for f, (r0, r1, c0, c1) in zip(out.data, rects):
+        R0, R1, C0, C1 = max(r0, 0), min(r1, total.shape[0]), max(c0, 0), min(c1, total.shape[1])
+        if R1 > R0 and C1 > C0:
+            total[R0:R1, C0:C1] += f.data[R0 - r0:R1 - r0, C0 - c0:C1 - c0]
+    peak = max(cm.max_abs(total), 1e-300)
+    if cm.max_abs(field - total) > 1e-12 * peak:
+        raise Violation("C03.chips.field", "Wavefront.field is not the coherent sum of its fields")
+    if cm.max_abs(inten - np.abs(total) ** 2) > 1e-11 * peak ** 2:
+        raise Violation("C03.chips.intensity",
+                        f"intensity differs from |coherent sum|^2 by {cm.max_abs(inten - np.abs(total) ** 2):.3e} "
+                        f"(peak {peak ** 2:.3e}) for {len(rects)} fields at {rects}: contributions of different "
+                        f"segments were added as intensities")
